@@ -35,6 +35,7 @@ type R struct {
 	Exhaustive   bool             `json:"exhaustive"`
 	Notes        []string         `json:"notes"`
 	MaxSamples   int              `json:"-"`
+	OnViolation  func(Violation)  `json:"-"` // children stream violations so that a later death does not lose them
 	Floors       map[string]int64 `json:"floors"`
 }
 
@@ -106,7 +107,11 @@ func (r *R) Violation(sig, what string, replay interface{}) {
 	if r.violSeen[sig] > 2 {
 		return
 	}
-	r.Violations = append(r.Violations, Violation{Sig: sig, What: what, Replay: replay})
+	v := Violation{Sig: sig, What: what, Replay: replay}
+	r.Violations = append(r.Violations, v)
+	if r.OnViolation != nil {
+		r.OnViolation(v)
+	}
 }
 
 func (r *R) Violationf(sig string, replay interface{}, format string, a ...interface{}) {
